@@ -80,6 +80,39 @@ def _work(task) -> core.Part:
                     _report(p, layout, v, {pos: k}, e, f"{k} null-data octets after position {pos}", False)
                     if p.full("kamstrup"):
                         return p
+    elif mode == "pairs":
+        import itertools
+        nums = [x for x in names if x not in ("meter_id", "meter_type", "meter_datetime")]
+        small32 = (0, 1, 99, 100, 65535, 65536, 2**32 - 1)
+        for mt in (MTYPES[0], MTYPES[1]):
+            for a, b in itertools.combinations(nums, 2):
+                for va in small32:
+                    for vb in small32:
+                        v = base_values(names, mt)
+                        v[a] = va & 0xFFFF if a.startswith("voltage") else va
+                        v[b] = vb & 0xFFFF if b.startswith("voltage") else vb
+                        e = check(layout, v)
+                        p.add("evaluations")
+                        p.add("nontrivial")
+                        if e:
+                            _report(p, layout, v, None, e, f"{a}={v[a]}, {b}={v[b]} meter type {mt!r}", mt.startswith("685"))
+                            if p.full("kamstrup") or p.full("kamstrup_ct"):
+                                return p
+    elif mode == "lattice":
+        for mt in (MTYPES[0], MTYPES[1]):
+            for field in ("current_l1", "active_power_import_total" if "active_power_import_total" in names else "active_power_import"):
+                for hi16 in range(0, 256):
+                    for k in range(16):
+                        val = (hi16 * 257 % 65536) * 65536 + (k * 4099 + hi16 * 7) % 65536
+                        v = base_values(names, mt)
+                        v[field] = val
+                        e = check(layout, v)
+                        p.add("evaluations")
+                        p.add("nontrivial")
+                        if e:
+                            _report(p, layout, v, None, e, f"{field}={val} meter type {mt!r}", mt.startswith("685"))
+                            if p.full("kamstrup") or p.full("kamstrup_ct"):
+                                return p
     elif mode == "values":
         a32 = cosemx.int_alphabet("u32", seed)
         a16 = cosemx.int_alphabet("u16", seed)
@@ -133,7 +166,7 @@ def main(run: core.Run) -> int:
                 "9 meter type numbers (CT types 685...); per register the u32/u16 alphabets for a standard and a CT meter; complete 2^16 sweep of one current register (standard and CT); list version / id texts; "
                 "each as bare body and as frame; non-trivial = distinct lists decoded")
     cosemx.bind_fixtures()
-    tasks = [(lay, run.seed, m) for lay in RC.KAM_LAYOUTS for m in ("pad", "values", "text", "padsweep")]
+    tasks = [(lay, run.seed, m) for lay in RC.KAM_LAYOUTS for m in ("pad", "values", "text", "padsweep", "pairs")] + [("list2_1ph", run.seed, "lattice"), ("list1_3ph", run.seed, "lattice")]
     for mt in (MTYPES[0], MTYPES[1]):
         for a in range(0, 65536 if q else 2 * 65536, 4096):
             tasks.append(("list1_3ph", run.seed, ("current_l1", a, a + 4096, mt)))
@@ -141,7 +174,7 @@ def main(run: core.Run) -> int:
     tot = run.total
     tot.sample({"layout": "list1_1ph", "meter_type": "6851111BN242101040", "register current_l1": 896, "expected": 0.896})
     tot.sample({"layout": "list2_3ph", "pad": {"3": 4}, "body_prefix": RC.kam_body(RC.KAM_L2_3, base_values(RC.KAM_L2_3), pad={3: 4}).hex()[:120]})
-    run.bounds = {"layouts": list(RC.KAM_LAYOUTS), "padding_sweep": "0..130, 200, 255 null-data octets after 4 positions of every layout", "meter_types": list(MTYPES)}
+    run.bounds = {"layouts": list(RC.KAM_LAYOUTS), "pairwise": "every pair of registers x 7x7 values x standard/CT meter", "lattice": "4096 values spread over the 32-bit range for a current and an energy/power register", "padding_sweep": "0..130, 200, 255 null-data octets after 4 positions of every layout", "meter_types": list(MTYPES)}
     run.assumptions = ["reference encoders and OBIS table in mc/ref/cosem.py (bound to the fixtures of tests/test_kamstrup.py)", "current = register/100 taken literally: the correctly rounded quotient"]
     ev = tot.c.get("evaluations", 0)
     return run.finish(states=tot.c.get("nontrivial", 0), transitions=ev, traces=ev, evaluations=ev, distinct_nontrivial=tot.c.get("nontrivial", 0))
